@@ -127,6 +127,11 @@ func (ob *observer) observeString(ref obj.Ref, where string, container uint32, r
 		return it, false // RC4 of nothing is nothing: no information
 	}
 	if bytes.Equal(raw, plain) {
+		if len(plain) < 6 && !ob.h.StrM.AES() {
+			// a short RC4 ciphertext equals its plaintext with probability
+			// 256^-n: no information either way
+			return it, false
+		}
 		it.Cipher, it.Key, it.OK, it.Ct = "none", "", true, digest(raw)
 		return it, true
 	}
